@@ -231,6 +231,16 @@ def followed_sql_text(m: pf.Module, fn: Optional[FuncDef], e: ast.expr, depth: i
     return None, [], 'opaque'
 
 
+def args_node(call: ast.Call) -> Optional[ast.expr]:
+    """The argument tuple / rows of an execute-style call: second positional argument, or the keyword `args` / `args_array`."""
+    if len(call.args) > 1:
+        return call.args[1]
+    for k in call.keywords:
+        if k.arg in ('args', 'args_array'):
+            return k.value
+    return None
+
+
 # -- path guards: enclosing ifs AND guard clauses ------------------------------------------------------------------------
 EXITS = (ast.Continue, ast.Break, ast.Return, ast.Raise)
 
@@ -339,7 +349,7 @@ class QueryInst:
     def bound(self) -> Optional[Dict[int, ast.expr]]:
         """%s position -> Python expression (helper formals replaced by the call-site actuals)."""
         st = self.stmts()[0]
-        elts = sr.args_tuple(self.holder, self.emb.call.args[1] if len(self.emb.call.args) > 1 else None)
+        elts = sr.args_tuple(self.holder, args_node(self.emb.call))
         params = sr.params_in_order(st)
         if elts is None or len(elts) != len(params):
             return None
@@ -452,9 +462,13 @@ def first_table(st: N) -> Optional[str]:
 def guard3(test: ast.expr, pol: bool, fn: Optional[FuncDef], atom_src: Optional[str], atom_val: Optional[bool]) -> Optional[bool]:
     """Three-valued value of a Python guard: constants are folded, `atom_src` (normalised source of the group-cancelled flag read)
     has the value atom_val, everything else is unknown (None)."""
+    alts = () if atom_src is None else ((atom_src,) if isinstance(atom_src, str) else tuple(atom_src))
+
     def ev(e: ast.expr) -> Optional[bool]:
-        if atom_src is not None and pf.nsrc(e) == atom_src:
+        if alts and pf.nsrc(e) in alts:
             return atom_val
+        if isinstance(e, ast.Call) and pf.dotted(e.func) == 'bool' and len(e.args) == 1 and not e.keywords:
+            return ev(e.args[0])
         if isinstance(e, ast.UnaryOp) and isinstance(e.op, ast.Not):
             v = ev(e.operand)
             return None if v is None else (not v)
@@ -611,18 +625,20 @@ def job_classes(q: QueryInst, schema: Optional[Dict[str, List[str]]] = None) -> 
             if n.kind == 'param' and pyconst(n) is UNKNOWN:
                 unbound.append(f'{text(cj)} <- {pf.nsrc(bound[n.pos]) if n.pos in bound else "?"}')
     key: Dict[str, Optional[str]] = {'batch_id': None, 'job_group_id': None}
+    key_expr: Dict[str, Optional[ast.expr]] = {'batch_id': None, 'job_group_id': None}
     for cj in sf.conjuncts(st.where):
         if cj.kind == 'bin' and cj.op == '=':
             for a, b in ((cj.left, cj.right), (cj.right, cj.left)):
                 if a.kind == 'col' and b.kind == 'param' and a.parts[-1].lower() in key and (len(a.parts) == 1 or a.parts[-2].lower() in jobs_alias) and b.pos in bound:
                     key[a.parts[-1].lower()] = pf.nsrc(bound[b.pos])
+                    key_expr[a.parts[-1].lower()] = bound[b.pos]
     projected = False
     for c, al in st.cols:
         if c.kind == 'star' and ((getattr(c, 'table', None) or 'jobs').lower().strip('`') in jobs_alias):
             projected = True
         if any(which(x) == 'cancelled' for x in c.walk()):
             projected = True
-    return {'may': may_set, 'must': must_set, 'conj': [text(c) for c in rel], 'key': key, 'unbound': unbound, 'cancelled_projected': projected}
+    return {'may': may_set, 'must': must_set, 'conj': [text(c) for c in rel], 'key': key, 'key_expr': key_expr, 'unbound': unbound, 'cancelled_projected': projected}
 
 
 # ======================================================================================
@@ -1204,7 +1220,7 @@ def job_id_shift(fn: FuncDef) -> Tuple[Lin, str]:
     d = pf.single_def(fn, 'job_id')
     if not isinstance(d, ast.expr):
         raise AnalysisError('_create_jobs: `job_id` has no single definition')
-    L = _lin(d)
+    L = norm_lin(fn, _lin(d))   # single-definition integer locals followed (`k = spec['job_id']; job_id = k + start - 1`)
     idx = [s_ for s_, c in L.coef.items() if s_.endswith("['job_id']") and c == 1]
     if len(idx) != 1:
         raise AnalysisError(f'_create_jobs: `job_id = {pf.nsrc(d)}` is not the spec\'s in-update job id plus an offset')
